@@ -17,6 +17,13 @@ FIRST = {
     "S08b-scheduler-start-count-ignores-retraction": ("missed", "C08 gained scripted_trace (retracting plan-ahead policy whose attributes match the offers it asks for)"),
     "S17b-stale-topological-order-cache": ("missed", "C17 gained graph_history: all clauses re-asked after every add_node/add_child/remove on one Graph object"),
     "S01b-reload-profile-skips-booking": ("missed", None),
+    "S03d-fuzz-delta-in-us-added-to-coarser-unit": ("missed", "C03 worlds contain strategies with whole-millisecond runtimes written in milliseconds"),
+    "S11d-running-parent-anchored-at-its-start-time": ("missed", "scheduler-input states may contain RUNNING tasks that overrun their strategy (as runtime variance makes them), capped so that what is left never exceeds the strategy's runtime"),
+    "S10d-clockwork-run-load-on-live-pools": ("missed (flag never set)", "a quarter of the Clockwork histories (C15, C10 clockwork_history) run with scheduler_run_load and little RAM; the side-effect clause compares free GPU, free RAM, loaded and pending profiles of every live worker"),
+    "S06d-cancel-events-name-the-placed-task": ("missed by C06 at the quick budget (caught by C08 scripted_trace)", "C06 scripted_sim quick budget raised from 500 to 1500 cases"),
+    "S12d-ilp-no-deadline-constraint-for-committed-tasks": ("missed (oracle gap: SCHEDULED tasks were not judged)", "C12 judges re-decided SCHEDULED tasks whose earlier plan met the deadline, on returned plans and on enumerated feasible points"),
+    "S14d-tetrisched-skips-solve-if-any-task-scheduled": ("missed by C14 (caught by C10 offered_task_not_answered)", None),
+    "S01d-resources-copy-shares-allocation-lists": ("missed by C01 (caught by C04 resources_machine; no bundled policy books a placed task again on a copy)", None),
     "S16c-eq-through-hash": ("missed (one magic pair)", "C16 values are biased to the neighbours of 0 and of the invalid marker (-4..4 us)"),
     "S09c-fixed-gamma-policy-unseeded": ("missed (policy kind not reachable through main.py)", "C09 gained release_policies_two_processes: poisson/gamma/fixed_gamma policies built through the API without rng_seed in two fresh processes after random.seed(N)"),
     "S17c-critical-path-weights-ignore-units": ("missed", "C17 task graphs write whole-millisecond runtimes in milliseconds"),
